@@ -395,6 +395,11 @@ def gen_surface_case(rng, mn=None, n=None):
             [len(params) - 1, len(params) + 1, len(params) + 2,
              rng.randint(1, 16), 30, 31])
         n = max(1, n)
+    if n in ok and not (n == 6 and mn in ('x', 'y', 'z')) and n != len(params):
+        try:
+            params = G.valid_params(mn, rng, n)
+        except ValueError:
+            pass
     if n < len(params):
         params = params[:n]
     else:
@@ -797,7 +802,7 @@ def run(res, tier, seed, proofs_ok):
             lat = None
             for opt in deck['latopts']:
                 m = re.fullmatch(rf'{cell["id"]},([-0-9:,]+)', opt)
-                if m:
+                if m and re.fullmatch(r'-?\d+:-?\d+(,-?\d+:-?\d+)*', m.group(1)):
                     lat = [tuple(int(x) for x in r.split(':'))
                            for r in m.group(1).split(',')]
             imps = [1.0] * len(deck['cells'])
